@@ -516,7 +516,9 @@ def record_points(target):
       cfile = caller.f_code.co_filename.split('/')[-1]
       # a call made from a weak-reference callback (WeakValueDictionary.remove -> QN.__hash__ ...) is not a step of the
       # pipeline: when it runs depends on when the referent dies, and the interpreter swallows whatever it raises
-      if cfile not in ('weakref.py', '_weakrefset.py'):
+      # (a generator-expression frame is not a call boundary either: raising from the trace function when such a frame is
+      # resumed does not reliably surface as an exception of the consuming expression)
+      if cfile not in ('weakref.py', '_weakrefset.py') and code.co_name != '<genexpr>':
         events.append((code.co_filename.split('/malt/')[-1], code.co_name, cfile, caller.f_lineno))
     return None
 
